@@ -75,6 +75,7 @@ type WorldOpts struct {
 	AppHost      string
 	ViaServer    bool   // go through server.ExtAuthZFilter.Check (real clock, real generator)
 	RealFactory  bool   // with ViaServer: stores come from oidc.NewSessionStoreFactory(cfg).PreRun(), as in cmd/main.go
+	Binary       bool   // run the built service binary (cmd/main.go) as a child process and talk gRPC to it
 	LiveJWKS     bool   // the key source answers with the provider's CURRENT published keys (models a fetcher that has refreshed)
 	LogoutURI    string // explicit logout redirect URI (also under discovery)
 	TriggerRules []*configv1.TriggerRule
@@ -98,6 +99,8 @@ type World struct {
 	Filter  *server.ExtAuthZFilter
 	Factory oidc.SessionStoreFactory
 	Full    *configv1.Config
+	Svc     *Service
+	stopIdP func()
 	// ExpectLogoutURI is where a logout must redirect to: the configured URI, else the discovered one.
 	ExpectLogoutURI string
 	cancel          context.CancelFunc
@@ -143,6 +146,9 @@ func NewWorld(c *Case, o WorldOpts) *World {
 		nowFn = time.Now
 	}
 	w.IdP = NewIdP(o.ClientID, o.ClientSecret, nowFn)
+	if o.Binary {
+		w.stopIdP = w.IdP.ServeOnLoopback()
+	}
 	w.IdP.OnToken = func(call *TokenCall) string { return w.intercept("token", call.Grant, "") }
 	cfg := &oidcv1.OIDCConfig{
 		CallbackUri:        o.CallbackURI,
@@ -235,7 +241,17 @@ func NewWorld(c *Case, o WorldOpts) *World {
 	}
 	w.JWKS.Intercept = func() string { return w.intercept("jwks", "Get", "") }
 	w.Gen = oidc.NewRandomGenerator()
-	if o.ViaServer && o.RealFactory {
+	if o.Binary {
+		if o.Store == "redis" {
+			mr, _ := Redis()
+			cfg.RedisSessionStoreConfig.ServerUri = "redis://" + mr.Addr()
+		}
+		svc, err := StartService(full)
+		if err != nil {
+			panic(err)
+		}
+		w.Svc = svc
+	} else if o.ViaServer && o.RealFactory {
 		if o.Store == "redis" {
 			mr, _ := Redis()
 			cfg.RedisSessionStoreConfig.ServerUri = "redis://" + mr.Addr()
@@ -265,6 +281,12 @@ func (w *World) SetStaticJWKS() {
 func (w *World) Close() {
 	w.cancel()
 	w.IdP.Close()
+	if w.Svc != nil {
+		w.Svc.Stop()
+	}
+	if w.stopIdP != nil {
+		w.stopIdP()
+	}
 }
 
 // intercept numbers the interception points and applies the fault plan.
@@ -420,6 +442,14 @@ func (w *World) CheckRaw(req *envoy.CheckRequest) (r *Resp) {
 		}
 		r.FiredTo = w.FiredCount()
 	}()
+	if w.Svc != nil {
+		ctx, cancel := context.WithTimeout(context.Background(), 20*time.Second)
+		defer cancel()
+		resp, err := w.Svc.client.Check(ctx, req)
+		r.Err = err
+		ParseResp(r, resp)
+		return r
+	}
 	if w.Opts.ViaServer {
 		resp, err := w.Filter.Check(context.Background(), req)
 		r.Err = err
